@@ -298,6 +298,40 @@ def check_recon(case, rec=None):
         fails.append(fail("position", "reconstruction maximum at (%d,%d), geometry predicts (%.2f,%.2f): %.2f px "
                           "apart; %s" % (ri, rj, pr[0], pr[1], d, where), what="argmax"))
     scale = np.abs(recon).max()
+    # the back-projection routine itself with the other interpolation kinds it offers: the per-projection shifts apply
+    # whatever the interpolation
+    kind = [None, "nearest", "cubic"][case["seed"] % 3]
+    if kind is not None:
+        from ImageD11.sinograms.roi_iradon import iradon
+        ok, rk = guard(iradon, sino, omega, sino.shape[0] + int(pad), "hamming", kind, np.full(sino.shape, shift))
+        if not ok:
+            fails.append(exc_failure("iradon(interpolation=%s)" % kind, rk))
+        else:
+            ki, kj = np.unravel_index(np.argmax(rk), rk.shape)
+            dk = float(np.hypot(ki - pr[0], kj - pr[1]))
+            if rk.shape != recon.shape or dk > 2.0:
+                fails.append(fail("position", "iradon(interpolation=%r) maximum at (%d,%d), geometry predicts (%.2f,%.2f): "
+                                  "%.2f px apart (linear interpolation: %.2f); %s" % (kind, ki, kj, pr[0], pr[1], dk, d, where),
+                                  what="argmax_" + kind))
+    # half-scan weighting (apply_halfmask): a pure function of the sinogram - the caller's array is not touched, a
+    # second call gives the same, twice the sinogram gives twice the reconstruction
+    if case["seed"] % 2 == 0:
+        keep = sino.copy()
+        ok, h1 = guard(run_iradon, sino, omega, int(pad), shift, 1, None, True)
+        ok2, h2 = guard(run_iradon, sino, omega, int(pad), shift, case["workers"], None, True)
+        ok3, h3 = guard(run_iradon, 2.0 * keep, omega, int(pad), shift, 1, None, True)
+        if not (ok and ok2 and ok3):
+            fails.append(exc_failure("run_iradon(apply_halfmask=True)", h1 if not ok else (h2 if not ok2 else h3)))
+        else:
+            hs = np.abs(h1).max() + 1e-300
+            if not np.array_equal(sino, keep):
+                fails.append(fail("inputs", "run_iradon(apply_halfmask=True) modified the sinogram it was given; %s" % where,
+                                  what="halfmask_input"))
+            elif np.abs(h2 - h1).max() > 1e-9 * hs or np.abs(h3 - 2 * h1).max() > 4e-9 * hs:
+                fails.append(fail("linearity", "run_iradon(apply_halfmask=True): a second call (%d workers) differs by "
+                                  "%.3g, twice the sinogram differs from twice the result by %.3g (scale %.3g); %s" %
+                                  (case["workers"], np.abs(h2 - h1).max(), np.abs(h3 - 2 * h1).max(), hs, where),
+                                  what="halfmask"))
     # the module's own blob finder must put the grain at the simulated sample position
     ok, pos = guard(G.fit_sample_position_from_recon, recon, ystep)
     if ok and pos is not None:
